@@ -136,6 +136,15 @@ func (fr *Frame) callWithArgs(s *State, g *Term, call *ssa.CallCommon, ins ssa.I
 			for _, p := range callee.Params {
 				names = append(names, p.Name())
 			}
+			if callee.Blocks == nil {
+				names = nil
+				if r := sig.Recv(); r != nil {
+					names = append(names, r.Name())
+				}
+				for i := 0; i < sig.Params().Len(); i++ {
+					names = append(names, sig.Params().At(i).Name())
+				}
+			}
 			return fr.applyContract(s, g, fc, callee, sig, names, args, pos)
 		}
 		if isEffectFree(key) {
@@ -412,6 +421,18 @@ func (fr *Frame) builtin(s *State, g *Term, b *ssa.Builtin, call *ssa.CallCommon
 		return nil
 	case "print", "println":
 		return nil
+	case "Slice": // unsafe.Slice(p, n)
+		p := args[0]
+		n := fr.toIndex(args[1], call.Args[1].Type())
+		fr.oblige("bounds", "", pos, g, c.And(c.BVCmp("bvule", n, c.BV(1<<56, 64)), c.Or(c.Neq(p, c.Null()), c.Eq(n, c.BV(0, 64)))), "unsafe.Slice: 0 <= len <= address space and non-nil pointer")
+		x.note("unsafe.Slice(p, n): [p, p+n) is valid memory and p is an array element (caller's obligation under the unsafe rules)")
+		path := c.RPath(p)
+		x.assume(c.And(g, c.Neq(p, c.Null())), c.App("is-pelem", SBool, path))
+		base := c.App("mkref", SRef, c.RRoot(p), c.Sel("pelem_par", "Path", path))
+		return c.Ite(c.Eq(p, c.Null()), c.NilSlice(), c.MkSlice(base, c.Sel("pelem_idx", SBV(64), path), n, n))
+	case "SliceData":
+		sv := args[0]
+		return c.Ite(c.Eq(c.SlPtr(sv), c.Null()), c.Null(), x.sliceElemAddr(sv, c.BV(0, 64)))
 	case "ssa:wrapnilchk":
 		return args[0]
 	}
